@@ -111,8 +111,13 @@ EXPORT char *_stpncpy_s_chk(char *restrict dest, rsize_t dmax,
     const char *overlap_bumper;
 
     if (unlikely(errp == NULL)) {
-        invoke_safe_str_constraint_handler("stpncpy_s: errp is null",
-                                           (void *)dest, ESNULLP);
+        if (dest != NULL && dmax != 0 && dmax <= RSIZE_MAX_STR &&
+            (destbos == BOS_UNKNOWN || dmax <= destbos)) {
+            handle_error(dest, dmax, "stpncpy_s: errp is null", ESNULLP);
+        } else {
+            invoke_safe_str_constraint_handler("stpncpy_s: errp is null",
+                                               (void *)dest, ESNULLP);
+        }
         return NULL;
     }
     if (unlikely(dest == NULL)) {
